@@ -68,17 +68,31 @@ impl Bounds {
             return Self::singleton(0.0);
         }
         if coefficient > 0.0 {
-            Self::new(self.lower * coefficient, self.upper * coefficient)
+            Self::new(
+                lower_product(self.lower, coefficient),
+                upper_product(self.upper, coefficient),
+            )
         } else {
-            Self::new(self.upper * coefficient, self.lower * coefficient)
+            Self::new(
+                lower_product(self.upper, coefficient),
+                upper_product(self.lower, coefficient),
+            )
         }
     }
 
     pub(crate) fn div_by(self, divisor: f64) -> Self {
         if divisor == 0.0 {
             Self::UNBOUNDED
+        } else if divisor > 0.0 {
+            Self::new(
+                lower_quotient(self.lower, divisor),
+                upper_quotient(self.upper, divisor),
+            )
         } else {
-            self.scale(1.0 / divisor)
+            Self::new(
+                lower_quotient(self.upper, divisor),
+                upper_quotient(self.lower, divisor),
+            )
         }
     }
 
@@ -93,18 +107,71 @@ impl Bounds {
     }
 }
 
+// Interval end points are rounded outward: when the floating point result of an
+// operation is not the exact one, the end point moves one step away from the
+// interval, so that an inferred range never excludes a point the constraints allow.
+// The `*_error` helpers return the sign of (exact result - rounded result).
+
+fn sum_error(lhs: f64, rhs: f64, sum: f64) -> f64 {
+    // two-sum: the rounding error of an addition is itself a float
+    let rhs_part = sum - lhs;
+    (lhs - (sum - rhs_part)) + (rhs - rhs_part)
+}
+
+fn product_error(lhs: f64, rhs: f64, product: f64) -> f64 {
+    lhs.mul_add(rhs, -product)
+}
+
+fn quotient_error(dividend: f64, divisor: f64, quotient: f64) -> f64 {
+    // dividend - quotient * divisor is exact; the error has its sign divided by the divisor's
+    let remainder = -quotient.mul_add(divisor, -dividend);
+    if divisor > 0.0 { remainder } else { -remainder }
+}
+
+fn toward_lower(value: f64, error: f64) -> f64 {
+    if error < 0.0 { value.next_down() } else { value }
+}
+
+fn toward_upper(value: f64, error: f64) -> f64 {
+    if error > 0.0 { value.next_up() } else { value }
+}
+
 fn lower_sum(lhs: f64, rhs: f64) -> f64 {
     let value = lhs + rhs;
     if value.is_nan() {
         f64::NEG_INFINITY
     } else {
-        value
+        toward_lower(value, sum_error(lhs, rhs, value))
     }
 }
 
 fn upper_sum(lhs: f64, rhs: f64) -> f64 {
     let value = lhs + rhs;
-    if value.is_nan() { f64::INFINITY } else { value }
+    if value.is_nan() {
+        f64::INFINITY
+    } else {
+        toward_upper(value, sum_error(lhs, rhs, value))
+    }
+}
+
+fn lower_product(lhs: f64, rhs: f64) -> f64 {
+    let value = lhs * rhs;
+    toward_lower(value, product_error(lhs, rhs, value))
+}
+
+fn upper_product(lhs: f64, rhs: f64) -> f64 {
+    let value = lhs * rhs;
+    toward_upper(value, product_error(lhs, rhs, value))
+}
+
+fn lower_quotient(dividend: f64, divisor: f64) -> f64 {
+    let value = dividend / divisor;
+    toward_lower(value, quotient_error(dividend, divisor, value))
+}
+
+fn upper_quotient(dividend: f64, divisor: f64) -> f64 {
+    let value = dividend / divisor;
+    toward_upper(value, quotient_error(dividend, divisor, value))
 }
 
 #[derive(Debug, Clone)]
